@@ -300,6 +300,44 @@ def followup():
     return [body0(), body1(), repr(apischema.serialize(Any, [UA(), UB()])), repr(apischema.serialize(Dict[str, Any], {"k": UB("q", [UA(5)])}))]
 '''
 
+# one thread uses a type for the first time (unions: every Optional field asks the registry of discriminators) while the other
+# defines fresh classes (a module imported lazily by a request handler) and uses them: registries are read while they grow
+H_SRC["H16_definition_during_first_use"] = '''
+@discriminator("kind")
+@dataclass
+class Pet(metaclass=DetMeta):
+    name: str = ""
+@dataclass
+class Cat(Pet):
+    lives: int = 9
+@dataclass
+class Dog(Pet):
+    tricks: int = 0
+@dataclass
+class Owner(metaclass=DetMeta):
+    name: str = ""
+    pet: Optional[Pet] = None
+    age: Optional[int] = None
+    other: Union[int, str, None] = None
+def body0():
+    return repr(apischema.deserialize(Owner, {"name": "o", "pet": {"kind": "Cat", "lives": 3}, "age": 1, "other": "x"}))
+def body1():
+    @discriminator("sort")
+    @dataclass
+    class Tool(metaclass=DetMeta):
+        w: int = 0
+    @dataclass
+    class Saw(Tool):
+        teeth: int = 1
+    @dataclass
+    class Axe(Tool):
+        edge: int = 2
+    return repr(apischema.deserialize(Tool, {"sort": "Saw", "teeth": 2})) + repr(apischema.serialize(Tool, Axe(1, 3)))
+BODIES = [body0, body1]
+def followup():
+    return [body0(), body1(), repr(apischema.serialize(Owner, Owner("p", Dog("d", 2), None, 3))), repr(apischema.deserialize(Pet, {"kind": "Dog"}))]
+'''
+
 QUICK = ["H1_deser_selfrec", "H2_ser_selfrec", "H3_shared_member", "H4_mutual", "H7_plain_control", "H10_schema_same_direction", "H13_inherited_validator", "H14_lazy_conversions"]
 ALL = list(H_SRC)
 
@@ -531,7 +569,7 @@ def run_config(plan, instr, wide, max_schedules=None, nworkers=None) -> infra.St
 def main(tier: str, t0: float) -> int:
     if tier == "quick":
         st = run_config([(h, 1) for h in QUICK], False, True)
-        everywhere_q = ["H1_deser_selfrec", "H2_ser_selfrec", "H9_validators_conv", "H12_union_by_type_subclass_data", "H13_inherited_validator", "H15_untyped_serialize"]
+        everywhere_q = ["H1_deser_selfrec", "H2_ser_selfrec", "H9_validators_conv", "H12_union_by_type_subclass_data", "H13_inherited_validator", "H15_untyped_serialize", "H16_definition_during_first_use"]
         st.merge(run_config([(h, 1) for h in everywhere_q], False, "all"))
         plan_desc = {"wide line points, 1 preemption": QUICK, "line points in every apischema module, 1 preemption": everywhere_q}
     else:
@@ -540,7 +578,7 @@ def main(tier: str, t0: float) -> int:
         st.merge(run_config([(h, 2) for h in two], False, "tiny"))
         core4 = ["H1_deser_selfrec", "H2_ser_selfrec", "H3_shared_member", "H4_mutual"]
         st.merge(run_config([(h, 1) for h in core4], True, False))
-        everywhere = ["H1_deser_selfrec", "H2_ser_selfrec", "H9_validators_conv", "H10_schema_same_direction", "H11_ser_schema_same_direction", "H12_union_by_type_subclass_data", "H13_inherited_validator", "H15_untyped_serialize"]
+        everywhere = ["H1_deser_selfrec", "H2_ser_selfrec", "H9_validators_conv", "H10_schema_same_direction", "H11_ser_schema_same_direction", "H12_union_by_type_subclass_data", "H13_inherited_validator", "H15_untyped_serialize", "H16_definition_during_first_use"]
         st.merge(run_config([(h, 1) for h in everywhere], False, "all"))
         plan_desc = {"wide line points, 1 preemption": ALL, "recursion/cache line points, 2 preemptions": two, "bytecode points on recursion core, 1 preemption": core4, "line points in every apischema module, 1 preemption": everywhere}
     st.counters["evaluations"] = st.counters.get("schedules", 0)
